@@ -441,6 +441,27 @@ def d_range(site):
                             if vo.kind == 'param' or not _mutated_between(body, vo, b, site.bb):
                                 return ('D-range', 'index %d after len(v) == %d on the same Vec' % (k, n))
         return None
+    if site.cls == 'assert' and site.term and site.term['kind'] == 'BoundsCheck':
+        # built-in slice indexing s[i] with i drawn from 0..s.len() of the same shared (hence un-mutated) slice
+        co = single_origin(trace_operand(body, site.term['cond']))
+        if co is None or co.kind != 'binop' or co.data[2]['op'] != 'Lt':
+            return None
+        io = single_origin(trace_operand(body, co.data[2]['a']))
+        lo_ = single_origin(trace_operand(body, co.data[2]['b']))
+        if io is None or lo_ is None or lo_.kind != 'unop' or lo_.data[2].get('op') != 'PtrMetadata':
+            return None
+        so = single_origin(trace_operand(body, lo_.data[2]['a']))
+        ri = _range_item(body, io)
+        if so is None or ri is None or so.kind != 'param' or so.proj or not body.locals[so.data]['ty'].startswith('&[') or body.is_closure:
+            return None
+        nxt, rv = ri
+        start, end = rv['ops']
+        eo = single_origin(trace_operand(body, end))
+        ln = _is_len_of(body, eo)
+        if ln is not None and ln.kind == 'param' and ln.data == so.data and not [x for x in ln.proj if x != 'deref' and x != ('deref',)] \
+                and op_const_int(start) is not None and op_const_int(start) >= 0:
+            return ('D-range', 'index is an item of %d..len(s) of the same shared slice parameter' % op_const_int(start))
+        return None
     if site.cls == 'assert' and site.term and site.term['kind'] == 'Overflow' and 'Sub' in site.term['msg']:
         # len(v) - 1 inside `for i in 0..len(v)`
         blk = body.blocks[site.bb]
